@@ -187,10 +187,10 @@ func (f SFault) any() bool { return f.Resolve || f.Perm || f.Unlock != 0 || f.Si
 
 // Plan is the fault schedule of the operation in progress.
 type Plan struct {
-	ByAcct    map[int]SFault // by account id (resolved account)
-	Ruler     []rules.Result // non-nil: the ruler's answer
-	FetchFail map[int]bool   // n-th Fetch of the operation fails
-	StoreFail bool
+	ByAcct     map[int]SFault // by account id (resolved account)
+	Ruler      []rules.Result // non-nil: the ruler's answer
+	FetchFail  map[int]bool   // n-th Fetch of the operation fails
+	StoreFail  bool
 	fetchCount atomic.Int64
 }
 
@@ -202,19 +202,20 @@ type Event struct {
 
 // Instance is one in-process Dirk: real rules store, ruler, locker, checker, fetcher, unlocker, signer.
 type Instance struct {
-	fx       *Fixture
-	Dir      string
-	AdminIPs []string
-	Perms    map[string][]*checker.Permissions
-	Rules    *standardrules.Service
-	Signer   *standardsigner.Service
-	Handler  *signerhandler.Handler
-	Locker   locker.Service
-	plan     atomic.Pointer[Plan]
-	evMu     sync.Mutex
-	events   []Event
-	record   bool
-	signHook func(acct *AcctInfo) // called when an account's Sign is invoked
+	fx         *Fixture
+	Dir        string
+	AdminIPs   []string
+	Perms      map[string][]*checker.Permissions
+	Rules      *standardrules.Service
+	Signer     *standardsigner.Service
+	Handler    *signerhandler.Handler
+	Locker     locker.Service
+	plan       atomic.Pointer[Plan]
+	evMu       sync.Mutex
+	events     []Event
+	record     bool
+	signHook   func(acct *AcctInfo) // called when an account's Sign is invoked
+	signedHook func(acct *AcctInfo) // called after an account's Sign returned a signature
 }
 
 type InstanceOpts struct {
@@ -480,7 +481,11 @@ func (a *faultAccountSigner) Sign(ctx context.Context, data []byte) (e2types.Sig
 	if a.sf.Sign {
 		return nil, errors.New("injected sign failure")
 	}
-	return a.Account.(e2wtypes.AccountSigner).Sign(ctx, data)
+	sig, err := a.Account.(e2wtypes.AccountSigner).Sign(ctx, data)
+	if err == nil && a.inst.signedHook != nil {
+		a.inst.signedHook(a.info)
+	}
+	return sig, err
 }
 
 type faultAccountNoSign struct{ *faultAccount }
